@@ -19,6 +19,7 @@ def run_property(ck: Check, prop: str):
     if have_model:
         from harness import runtime_model as rm
         rm.report(ck, agg, prop)
+    rc.report_exhaustive(ck, prop)
     extra = getattr(rc, f'extra_{prop.lower()}', None)
     if extra:
         extra(ck)
